@@ -163,41 +163,12 @@ def bank_problems(i: int, e: dict, index: dict):
     return out, n
 
 
-def effective_data_problems():
-    """The data the library works with must be the data of the files (R-REG), entry by entry."""
-    out = []
-    got = lib.registry.get("bank")
-    exp = reg.bank_list()
-    if got != exp:
-        i = next((i for i, (a, b) in enumerate(zip(got, exp)) if a != b), min(len(got), len(exp)))
-        out.append(("library-bank-list-differs-from-the-files", exp[i] if i < len(exp) else None,
-                    got[i] if i < len(got) else None))
-    for name, index in (("bank_code", lookup.by_key()), ("bic", lookup.by_bic()), ("country", lookup.by_country())):
-        cur = lib.registry.get(name)
-        if cur != index:
-            bad = next((k for k in list(index) + list(cur) if cur.get(k) != index.get(k)), None)
-            out.append((f"library-index-{name}-differs-from-the-files", index.get(bad), cur.get(bad)))
-    table = {k: {kk: vv for kk, vv in v.items() if kk != "regex"} for k, v in lib.registry.get("iban").items()}
-    if table != reg.iban_table():
-        bad = next(k for k in list(table) + list(reg.iban_table()) if table.get(k) != reg.iban_table().get(k))
-        out.append(("library-country-table-differs-from-the-files", reg.iban_table().get(bad), table.get(bad)))
-    return out
-
-
 def activity_shard():
-    """The same comparison before and after the API prelude, then the per-entry obligations for a
-    stride of bank entries once more: the bundled data must still be the files' data, and every
-    listed bank must still be found again, after the library has been used."""
+    """The API prelude, then the per-entry obligations for every 7th bank entry once more: every
+    listed bank must still be found again from its IBAN after the library has been used."""
     from ..engine import activity
     part = par.Part()
-    for phase in ("after-import", "after-API-activity"):
-        if phase == "after-API-activity":
-            part.stat("prelude_calls", activity.exercise_api(report.SEED))
-        probs = effective_data_problems()
-        part["evals"] += 5
-        part.seen.update(hash((phase, i)) for i in range(5))
-        for sig, exp, obs in probs:
-            part.violation(f"{sig} [{phase}]", {"kind": "c17effective", "phase": phase}, exp, obs)
+    part.stat("prelude_calls", activity.exercise_api(report.SEED))
     banks = reg.bank_list()
     index = lookup.by_key()
     for i in range(0, len(banks), 7):
@@ -207,7 +178,6 @@ def activity_shard():
         for sig, exp, obs in probs:
             part.violation(sig + " [after API activity]", {"kind": "c17bank", "index": i, "entry": banks[i]},
                            exp, obs)
-    part.stat("effective_data_comparisons", 2)
     return part.done()
 
 
@@ -249,9 +219,6 @@ def shard(args):
 
 
 def replay(case: dict) -> dict:
-    if case["kind"] == "c17effective":
-        probs = effective_data_problems() if case["phase"] == "after-import" else []
-        return {"ok": not probs, "observed": [(p[0], p[2]) for p in probs]}
     if case["kind"] == "c17country":
         probs, _ = country_problems(case["country"])
     elif case["kind"] == "c17algo":
